@@ -44,15 +44,28 @@ def make_catalog(r, with_detcat=False):
     return cat, img
 
 
-def make_apstats(r):
+def make_apstats(r, sky=None):
     from photutils.aperture import ApertureStats, CircularAperture, CircularAnnulus
     rs = np.random.RandomState(r.randrange(2 ** 31))
     img = rs.normal(5, 1, (40, 44))
     pos = [(r.uniform(-2, 46), r.uniform(-2, 42)) for _ in range(r.randint(3, 6))]
     ap = r.choice([CircularAperture(pos, 3.5), CircularAnnulus(pos, 2.0, 5.0)])
+    kw = {}
+    if (r.random() < 0.5) if sky is None else sky:
+        # sky apertures under a WCS whose pixel scale varies across the frame: the pixel aperture is derived ONCE for the whole catalogue
+        # (scale and angle at its first position); a child keeps its rows of it (seed C08-r13 let the child derive its own)
+        from astropy.wcs import WCS
+        w_ = WCS(naxis=2)
+        w_.wcs.crpix = [-30.0, -20.0]
+        w_.wcs.cdelt = [-0.6, 0.6]
+        w_.wcs.crval = [150.0, 20.0]
+        w_.wcs.ctype = ['RA---TAN', 'DEC--TAN']
+        inside = [(min(max(x, 2.0), 41.0), min(max(y, 2.0), 37.0)) for x, y in pos]
+        ap = ap.__class__(inside, *([3.5] if isinstance(ap, CircularAperture) else [2.0, 5.0])).to_sky(w_)
+        kw['wcs'] = w_
     with warnings.catch_warnings():
         warnings.simplefilter('ignore')
-        st = ApertureStats(img, ap, error=np.full(img.shape, 0.3), local_bkg=rs.normal(0, 0.1, len(pos)))
+        st = ApertureStats(img, ap, error=np.full(img.shape, 0.3), local_bkg=rs.normal(0, 0.1, len(pos)), **kw)
     return st, img
 
 
@@ -139,7 +152,7 @@ def run(rep, tier):
                 cat, img = make_catalog(r, with_detcat=(k % 2 == 1))
                 props = list(cat.properties)
             else:
-                cat, img = make_apstats(r)
+                cat, img = make_apstats(r, sky=(k % 2 == 0))
                 props = list(cat.properties)
             n = len(cat)
             if n < 2:
